@@ -158,7 +158,7 @@ native(f"{M_}:GHEManager.write_input_file", _roundtrip_check, _roundtrip_gen, No
 
 
 # ---- deductive part: what each to_input writes, what write_input_file assembles, and the arithmetic of the round trip ------------
-from pyvc.values import EnumVal  # noqa: E402
+from pyvc.values import EnumVal, PyObj  # noqa: E402
 
 contract("ghedesigner.borehole:GHEBorehole.to_input", dict(self=ObjOf("ghedesigner.borehole:GHEBorehole", D=Real, r_b=Real)),
          ensures=[("fields", lambda E: And(E.result["buried_depth"] == E.self.D, E.result["diameter"] == E.self.r_b * 2))], returns=DictOf(buried_depth=Real, diameter=Real))
@@ -305,20 +305,24 @@ contract(f"{MGR}.set_grout", dict(self=_M0, conductivity=Real, rho_cp=Real),
          ensures=[("stored", lambda E: And(E.self._grout.k == E.conductivity, E.self._grout.rhoCp == E.rho_cp, E.result == 0))], returns=Int)
 contract(f"{MGR}.set_soil", dict(self=_M0, conductivity=Real, rho_cp=Real, undisturbed_temp=Real),
          ensures=[("stored", lambda E: And(E.self._soil.k == E.conductivity, E.self._soil.rhoCp == E.rho_cp, E.self._soil.ugt == E.undisturbed_temp, E.result == 0))], returns=Int)
-contract(f"{MGR}.set_simulation_parameters", dict(self=_M0, num_months=Int, max_eft=Real, min_eft=Real, max_height=Real, min_height=Real, max_boreholes=Int, continue_if_design_unmet=Bool),
-         requires=[("positive-months", lambda E: E.num_months >= 1)],
-         ensures=[("stored", lambda E: And(E.self._simulation_parameters.end_month == E.num_months, E.self._simulation_parameters.max_EFT_allowable == E.max_eft,
-                                           E.self._simulation_parameters.min_EFT_allowable == E.min_eft, E.self._simulation_parameters.max_height == E.max_height,
-                                           E.self._simulation_parameters.min_height == E.min_height, E.self._simulation_parameters.max_boreholes == E.max_boreholes,
-                                           E.self._simulation_parameters.continue_if_design_unmet == E.continue_if_design_unmet, E.result == 0))], returns=Int)
+for _vn, _mbs in (("with-cap", Int), ("without-cap", NoneT())):
+    contract(f"{MGR}.set_simulation_parameters", dict(self=_M0, num_months=Int, max_eft=Real, min_eft=Real, max_height=Real, min_height=Real, max_boreholes=_mbs, continue_if_design_unmet=Bool),
+             name=f"{MGR}.set_simulation_parameters#{_vn}",
+             requires=[("positive-months", lambda E: E.num_months >= 1)],
+             ensures=[("stored", lambda E: And(E.self._simulation_parameters.end_month == E.num_months, E.self._simulation_parameters.max_EFT_allowable == E.max_eft,
+                                               E.self._simulation_parameters.min_EFT_allowable == E.min_eft, E.self._simulation_parameters.max_height == E.max_height,
+                                               E.self._simulation_parameters.min_height == E.min_height,
+                                               E.self._simulation_parameters.continue_if_design_unmet == E.continue_if_design_unmet, E.result == 0)),
+                      ("cap-stored", (lambda E, _vn=_vn: E.self._simulation_parameters.max_boreholes == E.max_boreholes if _vn == "with-cap" else E.self._simulation_parameters.max_boreholes is None))],
+             returns=Int).applies = (lambda env, _vn=_vn: (env.get("max_boreholes") is None) == (_vn == "without-cap"))
 contract(f"{MGR}.set_geometry_constraints_near_square", dict(self=_M0, b=Real, length=Real),
          ensures=[("stored", lambda E: And(E.self._geometric_constraints.b == E.b, E.self._geometric_constraints.length == E.length, E.result == 0))], returns=Int)
 contract(f"{MGR}.set_geometry_constraints_rectangle", dict(self=_M0, length=Real, width=Real, b_min=Real, b_max=Real),
          ensures=[("stored", lambda E: And(E.self._geometric_constraints.length == E.length, E.self._geometric_constraints.width == E.width,
-                                           E.self._geometric_constraints.b_min == E.b_min, E.self._geometric_constraints.b_max_x == E.b_max, E.result == 0))], returns=Int)
-for _m in ("bi_rectangle", "bi_zoned_rectangle"):
+                                           E.self._geometric_constraints.b_min == E.b_min, E.self._geometric_constraints.b_max_x == E.b_max, E.self.geom_type == 5, E.result == 0))], returns=Int)
+for _m, _gt in (("bi_rectangle", 1), ("bi_zoned_rectangle", 3)):
     contract(f"{MGR}.set_geometry_constraints_{_m}", dict(self=_M0, length=Real, width=Real, b_min=Real, b_max_x=Real, b_max_y=Real),
-             ensures=[("stored", lambda E: And(E.self._geometric_constraints.length == E.length, E.self._geometric_constraints.width == E.width, E.self._geometric_constraints.b_min == E.b_min,
+             ensures=[("method-recorded", (lambda E, _gt=_gt: E.self.geom_type == _gt)), ("stored", lambda E: And(E.self._geometric_constraints.length == E.length, E.self._geometric_constraints.width == E.width, E.self._geometric_constraints.b_min == E.b_min,
                                                E.self._geometric_constraints.b_max_x == E.b_max_x, E.self._geometric_constraints.b_max_y == E.b_max_y, E.result == 0))], returns=Int)
 for _vn, _ps in (("with-ratio", Real), ("without-ratio", NoneT())):
     contract(f"{MGR}.set_geometry_constraints_rowwise",
@@ -328,7 +332,7 @@ for _vn, _ps in (("with-ratio", Real), ("without-ratio", NoneT())):
                        lambda E: And(E.self._geometric_constraints.min_spacing == E.min_spacing, E.self._geometric_constraints.max_spacing == E.max_spacing,
                                      E.self._geometric_constraints.spacing_step == E.spacing_step, E.self._geometric_constraints.rotate_step == E.rotate_step,
                                      E.self._geometric_constraints.max_rotation == E.old.max_rotation * (PI / 180), E.self._geometric_constraints.min_rotation == E.old.min_rotation * (PI / 180),
-                                     E.result == 0))]
+                                     E.self.geom_type == 6, E.result == 0))]
              + ([("ratio-stored", lambda E: E.self._geometric_constraints.perimeter_spacing_ratio == E.perimeter_spacing_ratio)] if _vn == "with-ratio" else []),
              returns=Int).applies = lambda env: False
 contract(f"{MGR}.set_coaxial_pipe", dict(self=_M0, inner_pipe_d_in=Real, inner_pipe_d_out=Real, outer_pipe_d_in=Real, outer_pipe_d_out=Real, roughness=Real, conductivity_inner=Real,
@@ -343,7 +347,199 @@ for _m, _e in (("single_u_tube_pipe", "SINGLEUTUBE"), ("double_u_tube_pipe_paral
                        (lambda E, _e=_e: And(E.self._pipe.r_in == E.inner_diameter / 2, E.self._pipe.r_out == E.outer_diameter / 2, E.self._pipe.s == E.shank_spacing, E.self._pipe.k == E.conductivity,
                                              E.self._pipe.roughness == E.roughness, E.self._pipe.rhoCp == E.rho_cp, E.self.pipe_type == PIPE_ENUM[_e], E.result == 0)))],
              returns=Int)
-SETTERS = [f"{MGR}.set_grout", f"{MGR}.set_soil", f"{MGR}.set_simulation_parameters", f"{MGR}.set_geometry_constraints_near_square", f"{MGR}.set_geometry_constraints_rectangle",
+SETTERS = [f"{MGR}.set_grout", f"{MGR}.set_soil", f"{MGR}.set_simulation_parameters#with-cap", f"{MGR}.set_simulation_parameters#without-cap", f"{MGR}.set_geometry_constraints_near_square", f"{MGR}.set_geometry_constraints_rectangle",
            f"{MGR}.set_geometry_constraints_bi_rectangle", f"{MGR}.set_geometry_constraints_bi_zoned_rectangle", f"{MGR}.set_geometry_constraints_rowwise#with-ratio",
            f"{MGR}.set_geometry_constraints_rowwise#without-ratio", f"{MGR}.set_coaxial_pipe", f"{MGR}.set_single_u_tube_pipe", f"{MGR}.set_double_u_tube_pipe_parallel",
            f"{MGR}.set_double_u_tube_pipe_series"]
+
+
+# ---- frames of the setters (shaped: callers havoc exactly these slots) ------------------------------------------------------------------
+def _slot(name, shape):
+    return ((lambda P, name=name: (P.self, name)), shape)
+
+
+_GROUT = ObjOf("ghedesigner.media:Grout", k=Real, rhoCp=Real)
+_SOIL = ObjOf("ghedesigner.media:Soil", k=Real, rhoCp=Real, ugt=Real)
+_SIMP = ObjOf("ghedesigner.simulation:SimulationParameters", start_month=Int, end_month=Int, max_EFT_allowable=Real, min_EFT_allowable=Real, max_height=Real, min_height=Real,
+              max_boreholes=Int, continue_if_design_unmet=Bool)
+_PIPE_U = ObjOf("ghedesigner.media:Pipe", k=Real, rhoCp=Real, r_in=Real, r_out=Real, s=Real, roughness=Real, n_pipes=Int, pos=ListOf(TupleOf(Real, Real)))
+_PIPE_C = ObjOf("ghedesigner.media:Pipe", k=FixedList([Real, Real]), rhoCp=Real, r_in=FixedList([Real, Real]), r_out=FixedList([Real, Real]), s=Real, roughness=Real, n_pipes=Int)
+_GC = {"near_square": ObjOf(f"{G_}:GeometricConstraintsNearSquare", b=Real, length=Real, type=Int),
+       "rectangle": ObjOf(f"{G_}:GeometricConstraintsRectangle", length=Real, width=Real, b_min=Real, b_max_x=Real, type=Int),
+       "bi_rectangle": ObjOf(f"{G_}:GeometricConstraintsBiRectangle", length=Real, width=Real, b_min=Real, b_max_x=Real, b_max_y=Real, type=Int),
+       "bi_zoned_rectangle": ObjOf(f"{G_}:GeometricConstraintsBiZoned", length=Real, width=Real, b_min=Real, b_max_x=Real, b_max_y=Real, type=Int)}
+_RW = lambda ps: ObjOf(f"{G_}:GeometricConstraintsRowWise", perimeter_spacing_ratio=ps, min_spacing=Real, max_spacing=Real, spacing_step=Real, min_rotation=Real, max_rotation=Real,  # noqa: E731
+                       rotate_step=Real, property_boundary=OpaqueOf("list"), no_go_boundaries=OpaqueOf("list"), type=Int)
+_FRAMES = {f"{MGR}.set_grout": [_slot("_grout", _GROUT)], f"{MGR}.set_soil": [_slot("_soil", _SOIL)], f"{MGR}.set_simulation_parameters#with-cap": [_slot("_simulation_parameters", _SIMP)],
+           f"{MGR}.set_simulation_parameters#without-cap": [_slot("_simulation_parameters", ObjOf("ghedesigner.simulation:SimulationParameters", start_month=Int, end_month=Int, max_EFT_allowable=Real,
+                                                                                                     min_EFT_allowable=Real, max_height=Real, min_height=Real, max_boreholes=NoneT(),
+                                                                                                     continue_if_design_unmet=Bool))],
+           f"{MGR}.set_coaxial_pipe": [_slot("_pipe", _PIPE_C), _slot("pipe_type", Int)],
+           f"{MGR}.set_geometry_constraints_rowwise#with-ratio": [_slot("_geometric_constraints", _RW(Real)), _slot("geom_type", Int)],
+           f"{MGR}.set_geometry_constraints_rowwise#without-ratio": [_slot("_geometric_constraints", _RW(NoneT())), _slot("geom_type", Int)]}
+for _m in ("single_u_tube_pipe", "double_u_tube_pipe_parallel", "double_u_tube_pipe_series"):
+    _FRAMES[f"{MGR}.set_{_m}"] = [_slot("_pipe", _PIPE_U), _slot("pipe_type", Int)]
+for _m, _sh in _GC.items():
+    _FRAMES[f"{MGR}.set_geometry_constraints_{_m}"] = [_slot("_geometric_constraints", _sh)] + ([_slot("geom_type", Int)] if _m != "near_square" else [])
+for _n, _fr in _FRAMES.items():
+    REG.contracts[_n].assigns = list(_fr)
+# the two row-wise variants are chosen at a call site by whether a ratio is passed
+REG.contracts[f"{MGR}.set_geometry_constraints_rowwise#with-ratio"].applies = lambda env: env.get("perimeter_spacing_ratio") is not None
+REG.contracts[f"{MGR}.set_geometry_constraints_rowwise#without-ratio"].applies = lambda env: env.get("perimeter_spacing_ratio") is None
+
+
+# ---- the name setters (letter case of the names does not matter: C18) and the trivial loads setter -----------------------------------------
+GEOM_ENUM = {"BIRECTANGLE": 1, "BIRECTANGLECONSTRAINED": 2, "BIZONEDRECTANGLE": 3, "NEARSQUARE": 4, "RECTANGLE": 5, "ROWWISE": 6}
+NAME_SETTERS = []
+for _nm, _val in PIPE_ENUM.items():
+    for _spelling in (_nm, _nm.lower(), _nm.title()):
+        _n = f"{MGR}.set_pipe_type#{_spelling}"
+        contract(f"{MGR}.set_pipe_type", dict(self=_M0, bh_pipe_str=Const(_spelling), throw=Bool), name=_n,
+                 ensures=[("arrangement-recognised-in-any-letter-case", (lambda E, _val=_val: And(E.self.pipe_type == _val, E.result == 0)))],
+                 assigns=[_slot("pipe_type", Int)], returns=Int).applies = (lambda env, _s=_spelling: env.get("bh_pipe_str") == _s)
+        NAME_SETTERS.append(_n)
+for _nm, _val in GEOM_ENUM.items():
+    for _spelling in (_nm, _nm.lower()):
+        _n = f"{MGR}.set_design_geometry_type#{_spelling}"
+        contract(f"{MGR}.set_design_geometry_type", dict(self=_M0, design_geometry_str=Const(_spelling), throw=Bool), name=_n,
+                 ensures=[("method-recognised-in-any-letter-case", (lambda E, _val=_val: And(E.self.geom_type == _val, E.result == 0)))],
+                 assigns=[_slot("geom_type", Int)], returns=Int).applies = (lambda env, _s=_spelling: env.get("design_geometry_str") == _s)
+        NAME_SETTERS.append(_n)
+for _fn, _par in (("set_pipe_type", "bh_pipe_str"), ("set_design_geometry_type", "design_geometry_str")):
+    _n = f"{MGR}.{_fn}#unknown-name"
+    contract(f"{MGR}.{_fn}", {"self": _M0, _par: Const("NO_SUCH_NAME"), "throw": Bool}, name=_n,
+             raises={"ValueError": lambda E: E.throw}, ensures=[("refused", lambda E: E.result == 1)], returns=Int).applies = (lambda env, _par=_par: env.get(_par) == "NO_SUCH_NAME")
+    NAME_SETTERS.append(_n)
+contract(f"{MGR}.set_ground_loads_from_hourly_list", dict(self=_M0, hourly_ground_loads=ListOf(Real)),
+         ensures=[("stored-as-given", lambda E: And(E.self._ground_loads.raw() is E.hourly_ground_loads.raw(), E.result == 0))],
+         assigns=[_slot("_ground_loads", AliasOf(lambda P: P.hourly_ground_loads))], returns=Int)
+NAME_SETTERS.append(f"{MGR}.set_ground_loads_from_hourly_list")
+
+
+# ---- the command-line loading path: JSON -> setter calls (_run_manager_from_cli_worker) --------------------------------------------------
+from contracts import cli as _cli  # noqa: E402,F401  (validate_input_file#caller, PathS)
+from contracts import flow as _flow  # noqa: E402
+
+contract(f"{MGR}.__init__", dict(), inline=True)  # plain field initialisation (every slot None)
+for _n in _flow.SET_DESIGN:
+    REG.contracts[_n].applies = lambda env: False  # verified against the body only; call sites use the view below
+_DESIGN = ObjOf("ghedesigner.design:DesignNearSquare", V_flow=Real, flow_type=Int, borehole=ObjOf("ghedesigner.borehole:GHEBorehole", H=Real))
+contract(f"{MGR}.set_design", dict(self=_M0, flow_rate=Real, flow_type_str=OpaqueOf("str"), throw=Bool), name=f"{MGR}.set_design#loader",
+         ensures=[("design-carries-the-flow", lambda E: And(E.self._design.V_flow == E.flow_rate, E.result == 0))],
+         assigns=[_slot("_design", _DESIGN)], returns=Int,
+         notes="caller view of the 12 verified geometry x flow variants (flow.py): the design object gets the flow rate; which class is built is decided by geom_type").applies = lambda env: True
+_FLUID = ObjOf("ghedesigner.media:GHEFluid", concentration_percent=Real, temperature=Real, name_given=OpaqueOf("str"))
+contract(f"{MGR}.set_fluid", dict(self=_M0, fluid_name=OpaqueOf("str"), concentration_percent=Real, temperature=Real, throw=Bool), name=f"{MGR}.set_fluid#loader",
+         ensures=[("fluid-built-from-the-three-inputs", lambda E: And(E.self._fluid.concentration_percent == E.concentration_percent, E.self._fluid.temperature == E.temperature, E.result == 0))],
+         assigns=[_slot("_fluid", _FLUID)], returns=Int,
+         notes="ASSUMED (body builds an scp fluid: external): GHEFluid(fluid_str, percent, temperature) keeps percent and temperature; exercised by the bounded round trip").applies = lambda env: True
+_BH = ObjOf("ghedesigner.borehole:GHEBorehole", H=Real, D=Real, r_b=Real)
+contract(f"{MGR}.set_borehole", dict(self=_M0, height=Real, buried_depth=Real, diameter=Real), name=f"{MGR}.set_borehole#loader",
+         ensures=[("borehole-from-depth-and-half-the-diameter", lambda E: And(E.self._borehole.H == E.height, E.self._borehole.D == E.buried_depth, E.self._borehole.r_b == E.diameter / 2, E.result == 0))],
+         assigns=[_slot("_borehole", _BH)], returns=Int,
+         notes="ASSUMED (pygfunction Borehole base class is external); radius = diameter / 2 is the line in the body; exercised by the bounded round trip").applies = lambda env: True
+for _m in ("find_design", "prepare_results", "write_output_files"):
+    contract(f"{MGR}.{_m}", dict(self=_M0), name=f"{MGR}.{_m}#loader", raises={"Exception": None}, returns=NoneT(),
+             assigns=[_slot("_search", OpaqueOf("search")), _slot("results", OpaqueOf("results")), _slot("_search_time", Real)],
+             notes="abstract in the loader contract: the design run writes _search / results only (frames of find_design are proved in C13)").applies = (
+                 lambda env: isinstance(env["self"].fields.get("_design"), PyObj) and "coordinates_domain" not in env["self"].fields["_design"].fields)
+contract(f"{MGR}.set_geometry_constraints_bi_rectangle_constrained", dict(self=_M0, b_min=Real, b_max_x=Real, b_max_y=Real, property_boundary=OpaqueOf("list"), no_go_boundaries=OpaqueOf("list")),
+         name=f"{MGR}.set_geometry_constraints_bi_rectangle_constrained#loader",
+         ensures=[("stored", lambda E: And(E.self._geometric_constraints.b_min == E.b_min, E.self._geometric_constraints.b_max_x == E.b_max_x, E.self._geometric_constraints.b_max_y == E.b_max_y, E.self.geom_type == 2, E.result == 0))],
+         assigns=[_slot("_geometric_constraints", ObjOf(f"{G_}:GeometricConstraintsBiRectangleConstrained", b_min=Real, b_max_x=Real, b_max_y=Real, type=Int)), _slot("geom_type", Int)],
+         returns=Int, notes="ASSUMED caller view (body wraps polygons; not verified)").applies = lambda env: True
+
+_JSON_PIPE = {
+    "SINGLEUTUBE": dict(inner_diameter=Real, outer_diameter=Real, shank_spacing=Real, roughness=Real, conductivity=Real, rho_cp=Real),
+    "COAXIAL": dict(inner_pipe_d_in=Real, inner_pipe_d_out=Real, outer_pipe_d_in=Real, outer_pipe_d_out=Real, roughness=Real, conductivity_inner=Real, conductivity_outer=Real, rho_cp=Real)}
+_JSON_PIPE["DOUBLEUTUBEPARALLEL"] = _JSON_PIPE["DOUBLEUTUBESERIES"] = _JSON_PIPE["SINGLEUTUBE"]
+_JSON_GEOM = {
+    "NEARSQUARE": dict(length=Real, b=Real), "RECTANGLE": dict(length=Real, width=Real, b_min=Real, b_max=Real),
+    "BIRECTANGLE": dict(length=Real, width=Real, b_min=Real, b_max_x=Real, b_max_y=Real), "BIZONEDRECTANGLE": dict(length=Real, width=Real, b_min=Real, b_max_x=Real, b_max_y=Real),
+    "BIRECTANGLECONSTRAINED": dict(b_min=Real, b_max_x=Real, b_max_y=Real, property_boundary=OpaqueOf("list"), no_go_boundaries=OpaqueOf("list")),
+    "ROWWISE": dict(perimeter_spacing_ratio=Real, max_spacing=Real, min_spacing=Real, spacing_step=Real, max_rotation=Real, min_rotation=Real, rotate_step=Real,
+                    property_boundary=OpaqueOf("list"), no_go_boundaries=OpaqueOf("list")),
+    "ROWWISE-without-ratio": dict(max_spacing=Real, min_spacing=Real, spacing_step=Real, max_rotation=Real, min_rotation=Real, rotate_step=Real,
+                                  property_boundary=OpaqueOf("list"), no_go_boundaries=OpaqueOf("list"))}
+
+
+def _file_shape(pipe, geom, optional):
+    method = geom.split("-")[0]
+    design = dict(flow_rate=Real, flow_type=OpaqueOf("str"), max_eft=Real, min_eft=Real)
+    if optional:
+        design.update(max_boreholes=Int, continue_if_design_unmet=Bool)
+    return DictOf(version=OpaqueOf("str"), fluid=DictOf(fluid_name=OpaqueOf("str"), concentration_percent=Real, temperature=Real), grout=DictOf(conductivity=Real, rho_cp=Real),
+                  soil=DictOf(conductivity=Real, rho_cp=Real, undisturbed_temp=Real), pipe=DictOf(**_JSON_PIPE[pipe], arrangement=Const(pipe)),
+                  borehole=DictOf(buried_depth=Real, diameter=Real), simulation=DictOf(num_months=Int),
+                  geometric_constraints=DictOf(**_JSON_GEOM[geom], max_height=Real, min_height=Real, method=Const(method)), design=DictOf(**design),
+                  loads=DictOf(ground_loads=ListOf(Real)))
+
+
+def _loaded(pipe, geom, optional):
+    def J(E):
+        return E._file_json
+
+    def g(E):
+        return E.ghe
+
+    cl = [("media-and-borehole",
+           lambda E: And(g(E)._grout.k == J(E)["grout"]["conductivity"], g(E)._grout.rhoCp == J(E)["grout"]["rho_cp"], g(E)._soil.k == J(E)["soil"]["conductivity"],
+                         g(E)._soil.rhoCp == J(E)["soil"]["rho_cp"], g(E)._soil.ugt == J(E)["soil"]["undisturbed_temp"],
+                         g(E)._fluid.concentration_percent == J(E)["fluid"]["concentration_percent"], g(E)._fluid.temperature == J(E)["fluid"]["temperature"],
+                         g(E)._borehole.D == J(E)["borehole"]["buried_depth"], g(E)._borehole.r_b == J(E)["borehole"]["diameter"] / 2)),
+          ("simulation-parameters",
+           lambda E: And(g(E)._simulation_parameters.end_month == J(E)["simulation"]["num_months"], g(E)._simulation_parameters.max_EFT_allowable == J(E)["design"]["max_eft"],
+                         g(E)._simulation_parameters.min_EFT_allowable == J(E)["design"]["min_eft"], g(E)._simulation_parameters.max_height == J(E)["geometric_constraints"]["max_height"],
+                         g(E)._simulation_parameters.min_height == J(E)["geometric_constraints"]["min_height"])),
+          ("loads-and-flow", lambda E: And(g(E)._ground_loads.raw() is J(E)["loads"]["ground_loads"].raw(), g(E)._design.V_flow == J(E)["design"]["flow_rate"])),
+          ("pipe-type", lambda E: g(E).pipe_type == PIPE_ENUM[pipe]), ("geometry-type", lambda E: g(E).geom_type == GEOM_ENUM[geom.split("-")[0]])]
+    if optional:
+        cl.append(("optional-keys-loaded", lambda E: And(g(E)._simulation_parameters.max_boreholes == J(E)["design"]["max_boreholes"],
+                                                        g(E)._simulation_parameters.continue_if_design_unmet == J(E)["design"]["continue_if_design_unmet"])))
+    else:
+        cl.append(("optional-keys-default", lambda E: And(g(E)._simulation_parameters.max_boreholes is None, g(E)._simulation_parameters.continue_if_design_unmet == False)))  # noqa: E712
+    if pipe == "COAXIAL":
+        cl.append(("coaxial-radii-are-half-the-diameters",
+                   lambda E: And(g(E)._pipe.r_in[0] == J(E)["pipe"]["inner_pipe_d_in"] / 2, g(E)._pipe.r_in[1] == J(E)["pipe"]["inner_pipe_d_out"] / 2,
+                                 g(E)._pipe.r_out[0] == J(E)["pipe"]["outer_pipe_d_in"] / 2, g(E)._pipe.r_out[1] == J(E)["pipe"]["outer_pipe_d_out"] / 2,
+                                 g(E)._pipe.k[0] == J(E)["pipe"]["conductivity_inner"], g(E)._pipe.k[1] == J(E)["pipe"]["conductivity_outer"], g(E)._pipe.rhoCp == J(E)["pipe"]["rho_cp"],
+                                 g(E)._pipe.roughness == J(E)["pipe"]["roughness"])))
+    else:
+        cl.append(("u-tube-radii-are-half-the-diameters",
+                   lambda E: And(g(E)._pipe.r_in == J(E)["pipe"]["inner_diameter"] / 2, g(E)._pipe.r_out == J(E)["pipe"]["outer_diameter"] / 2, g(E)._pipe.s == J(E)["pipe"]["shank_spacing"],
+                                 g(E)._pipe.k == J(E)["pipe"]["conductivity"], g(E)._pipe.rhoCp == J(E)["pipe"]["rho_cp"], g(E)._pipe.roughness == J(E)["pipe"]["roughness"])))
+    gc = lambda E: g(E)._geometric_constraints  # noqa: E731
+    G = lambda E: J(E)["geometric_constraints"]  # noqa: E731
+    if geom == "NEARSQUARE":
+        cl.append(("geometry", lambda E: And(gc(E).b == G(E)["b"], gc(E).length == G(E)["length"])))
+    elif geom == "RECTANGLE":
+        cl.append(("geometry", lambda E: And(gc(E).length == G(E)["length"], gc(E).width == G(E)["width"], gc(E).b_min == G(E)["b_min"], gc(E).b_max_x == G(E)["b_max"])))
+    elif geom in ("BIRECTANGLE", "BIZONEDRECTANGLE"):
+        cl.append(("geometry", lambda E: And(gc(E).length == G(E)["length"], gc(E).width == G(E)["width"], gc(E).b_min == G(E)["b_min"], gc(E).b_max_x == G(E)["b_max_x"], gc(E).b_max_y == G(E)["b_max_y"])))
+    elif geom == "BIRECTANGLECONSTRAINED":
+        cl.append(("geometry", lambda E: And(gc(E).b_min == G(E)["b_min"], gc(E).b_max_x == G(E)["b_max_x"], gc(E).b_max_y == G(E)["b_max_y"])))
+    else:
+        cl.append(("geometry-with-rotations-in-radians",
+                   lambda E: And(gc(E).min_spacing == G(E)["min_spacing"], gc(E).max_spacing == G(E)["max_spacing"], gc(E).spacing_step == G(E)["spacing_step"], gc(E).rotate_step == G(E)["rotate_step"],
+                                 gc(E).min_rotation == G(E)["min_rotation"] * (PI / 180), gc(E).max_rotation == G(E)["max_rotation"] * (PI / 180))))
+        if geom == "ROWWISE":
+            cl.append(("perimeter-ratio-loaded", lambda E: gc(E).perimeter_spacing_ratio == G(E)["perimeter_spacing_ratio"]))
+        else:
+            cl.append(("perimeter-ratio-absent", lambda E: gc(E).perimeter_spacing_ratio is None))
+    return cl
+
+
+WORKER = []
+_WORKER_VARIANTS = [(p, "RECTANGLE", False) for p in PIPE_ENUM] + [("SINGLEUTUBE", gm, True) for gm in _JSON_GEOM if gm != "RECTANGLE"] + [("SINGLEUTUBE", "RECTANGLE", True)]
+for _p, _g, _opt in _WORKER_VARIANTS:
+    _n = f"{M_}:_run_manager_from_cli_worker#{_p}-{_g}-{'with' if _opt else 'without'}-optional-keys"
+    contract(f"{M_}:_run_manager_from_cli_worker", dict(input_file_path=_cli.PathS, output_directory=_cli.PathS, _file_json=_file_shape(_p, _g, _opt)), name=_n,
+             requires=[("file-passes-validation", lambda E: _cli.VALIDF(E.input_file_path.id) == 0),
+                       ("schema-fact-used", lambda E: E._file_json["simulation"]["num_months"] >= 1)],  # simulation.schema.json: num_months minimum 1
+             raises={"Exception": None, "KeyError": None},
+             ensures=[("runs-the-design", lambda E: E.result == 0)] + _loaded(_p, _g, _opt), returns=Int).applies = lambda env: False
+    WORKER.append(_n)
+contract(f"{M_}:_run_manager_from_cli_worker", dict(input_file_path=_cli.PathS, output_directory=_cli.PathS), name=f"{M_}:_run_manager_from_cli_worker#invalid-file",
+         requires=[("file-fails-validation", lambda E: _cli.VALIDF(E.input_file_path.id) != 0)], raises={"KeyError": None},
+         ensures=[("refused-before-anything-is-loaded", lambda E: E.result == 1)], returns=Int).applies = lambda env: False
+WORKER.append(f"{M_}:_run_manager_from_cli_worker#invalid-file")
